@@ -136,6 +136,20 @@ class Runner:
         q.backward()
         if z.grad is not None or q.grad is not None:
             bad.append("backward() did something")
+        # backward() on tensors of a graph that was recorded OUTSIDE the scope (a non-constant and a constant one) does nothing either
+        gy, gc_ = self.gy, self.gc
+        cr = (gy.creator, gc_.creator)
+        wl = self.gx.data.flags.writeable
+        gc_.backward()
+        gy.backward()
+        if gy.creator is not cr[0] or gc_.creator is not cr[1] or self.gx.grad is not None or self.gx.data.flags.writeable != wl:
+            bad.append("backward() inside no_autodiff touched a graph recorded outside the scope")
+        # reading a not-yet-computed view gradient (derived lazily from the base's) must not disturb the switches
+        if self.fresh_views:
+            v = self.fresh_views.pop()
+            if v.grad is None:
+                bad.append("a view of a tensor holding a gradient read grad None under no_autodiff")
+            self.check(where + " after reading a lazily derived view gradient")
         for b in bad:
             self.viol.append({"monitor": "no_autodiff", "mech": "no_autodiff:" + b, "msg": f"{where}: {b}"})
 
@@ -233,6 +247,10 @@ def run_case(case):
     x = mg.tensor([1.0, 2.0, 3.0])
     (x * x).sum().backward()
     r.x = x
+    r.fresh_views = [x[:2] for _ in range(12)]          # views taken under tracking whose gradient has not been read yet
+    r.gx = mg.tensor([1.0, 2.0])
+    r.gy = r.gx * 2.0                                    # a live graph recorded outside every scope
+    r.gc = mg.multiply(r.gy, 3.0, constant=True)
     try:
         r.check("start")
         try:
